@@ -132,6 +132,23 @@ def run(ctx):
                     camp.parse(prog, con, unit * 30, 0, kw, tag="rec-long")
                     camp.parse(prog, con, unit * 30 + b"\x00\x00\x00", 0, kw, tag="rec-long")
             camp.sh.maybe_flush()
+        # builds through streaming wrappers that write several units in one call, onto a stream that fails or writes short at every operation in turn
+        for prog, v in ((A.Bitwise(A.Struct(A.Renamed("n", A.Alias("Octet")), A.Renamed("v", A.BitsInteger(A.T("n"))))), {"n": 24, "v": 0xabcdef}),
+                        (A.Bitwise(A.Struct(A.Renamed("n", A.Alias("Octet")), A.Renamed("v", A.BitsInteger(A.T("n"))), A.Renamed("t", A.Alias("Octet")))), {"n": 16, "v": 0x1234, "t": 9}),
+                        (A.BitsSwapped(A.Prefixed(A.Alias("Byte"), A.GreedyBytes)), b"abcd"),
+                        (A.Struct(A.Renamed("h", A.Alias("Byte")), A.Renamed("b", A.BitsSwapped(A.Struct(A.Renamed("n", A.Alias("Byte")), A.Renamed("d", A.Bytes(A.T("n"))))))), {"h": 1, "b": {"n": 3, "d": b"xyz"}}),
+                        (A.Bitwise(A.Struct(A.Renamed("a", A.Alias("Nibble")), A.Renamed("z", A.Bytewise(A.Bytes(A.T("_params", "k")))), A.Renamed("b", A.Alias("Nibble")))), {"a": 1, "z": b"\x23\x45", "b": 6})):
+            con = campaign.realizable(prog)
+            if con is None:
+                continue
+            kw = {"k": 2}
+            icb, cb = camp.build(prog, con, v, b"", kw, fault={"k": 0, "mode": "none"}, tag="clean")
+            for mode in ("raise", "short"):
+                for k in range(1, min(cb["ops"], 16) + 1):
+                    ifl, f = camp.build(prog, con, v, b"", kw, fault={"k": k, "mode": mode}, tag="fault")
+                    camp.sh.session("C06.fault", [icb, ifl])
+                    nt += 1
+            camp.sh.maybe_flush()
         # spec -> code: every input of the sessions TLC explores on the model's universe (design level: theorems Closed / Prefix of MC_CAM),
         # and every strict prefix of the encodings the specification built
         uprogs, ukw, sessions, _ = speccode.explore(ctx, focus="all", part=speccode.part_of(ctx, 64 if quick else 64), faults=True)
